@@ -262,6 +262,26 @@ func c18OtherCode(c *core.Case) {
 		}
 		return map[string]any{"crs": code, "points": ps, "observed": obs}
 	}
+	// the probe point itself lies in the code's area of use (bundled table): a supported code must convert it
+	if probe, e := object.NewPoint(lon, lat, 10); e == nil {
+		covered := false
+		for _, k := range wgs84.EPSG().CodesCover(probe.Lon(), probe.Lat()) {
+			covered = covered || k == code
+		}
+		if covered {
+			pp, pe := shape.ConvertPointListToProjectedPointList([]*object.Point{probe}, code)
+			c.Call()
+			if pe != nil || len(pp) != 1 {
+				c.Fail("supported-code-refused", nil, "EPSG:%d is in the bundled table and its area of use contains (%v,%v), but the conversion returned %d points, err %v", code, probe.Lon(), probe.Lat(), len(pp), pe)
+				return
+			}
+			if bp, be := shape.ConvertProjectedPointListToPointList(pp, code); be != nil || len(bp) != 1 {
+				c.Fail("supported-code-refused", nil, "EPSG:%d: inverse conversion of its own projection of (%v,%v) returned %d points, err %v", code, probe.Lon(), probe.Lat(), len(bp), be)
+				return
+			}
+			c.Call()
+		}
+	}
 	proj, err := shape.ConvertPointListToProjectedPointList(objs, code)
 	c.Call()
 	if err != nil {
